@@ -15,7 +15,9 @@ Oracle        : an independent Python evaluator of the abstract syntax (ordinary
 from __future__ import annotations
 
 import itertools
+import logging
 import os
+import signal
 import sys
 from pathlib import Path
 
@@ -31,6 +33,28 @@ OPERANDS = [0, 1, 2, 3, 7, 0xFFFF]
 HUGE_SHIFT = 1 << 18
 HEXCH = "0123456789abcdefABCDEF"
 TESTDATA = "tests/nxpimage/data/sb_sources/"
+
+
+class Hang(Exception):
+    """the implementation did not return within the time limit"""
+
+
+class time_limit:
+    """SIGALRM guard around calls into the implementation: a hang must become a reported failure, not a stuck check"""
+
+    def __init__(self, seconds=20):
+        self.seconds = seconds
+
+    def __enter__(self):
+        def handler(_sig, _frm):
+            raise Hang()
+        self.old = signal.signal(signal.SIGALRM, handler)
+        signal.alarm(self.seconds)
+
+    def __exit__(self, *exc):
+        signal.alarm(0)
+        signal.signal(signal.SIGALRM, self.old)
+        return False
 
 
 class RefErr(Exception):
@@ -331,6 +355,7 @@ class Real:
         from spsdk.sbfile.sb2.images import BootImageV21
         from spsdk.sbfile.sb2.sly_bd_parser import BDParser
         self.BDParser, self.BootImageV21, self.C, self.SPSDKError = BDParser, BootImageV21, C, SPSDKError
+        logging.getLogger("spsdk").setLevel(logging.ERROR)
         self.repo = Path(os.environ.get("SPSDK_REPO", "/repo"))
         d = self.repo / TESTDATA
         self.kek = str(d / "keys/SBkek_PUF.txt")
@@ -393,11 +418,14 @@ class Real:
         p = self.scratch / "prog.bd"
         p.write_text(text)
         try:
-            cfg = self.BootImageV21.parse_sb21_config(str(p), extern)
-            sb = self.BootImageV21.load_from_config(
-                cfg, key_file_path=self.kek, signing_certificate_file_paths=[self.cert], root_key_certificate_paths=self.roots,
-                rkth_out_path=str(self.scratch / "hash.bin"), search_paths=[str(self.scratch)],
-                signature_provider=self.sp[1] if self.sp[0] == "ok" else None)
+            with time_limit(30):
+                cfg = self.BootImageV21.parse_sb21_config(str(p), extern)
+                sb = self.BootImageV21.load_from_config(
+                    cfg, key_file_path=self.kek, signing_certificate_file_paths=[self.cert], root_key_certificate_paths=self.roots,
+                    rkth_out_path=str(self.scratch / "hash.bin"), search_paths=[str(self.scratch)],
+                    signature_provider=self.sp[1] if self.sp[0] == "ok" else None)
+        except Hang:
+            return "HANG", None
         except Exception:  # noqa: BLE001
             return "E", None
         try:
@@ -476,6 +504,14 @@ def config_canon(r):
 # ---------------------------------------------------------------------------------------------- programs
 # The statement generator works on small records: each statement = dict(kind=…, fields…) with expressions given as
 # abstract syntax; `stmt_text` renders BD text, `stmt_wire` the driver request, `stmt_ref` the expected command.
+def guard2(txt, m):
+    """after `@expr` a following expression must not start with a sign (it would continue the memory-option expression)"""
+    txt = guard(txt, m)
+    if m is not None and m[0] == "@" and txt.lstrip()[0] in "+-":
+        return "(" + txt + ")"
+    return txt
+
+
 def guard(txt, m):
     """An expression right after an ABSENT optional memory option must not start with an identifier: the grammar would take
     the identifier for the memory option (`erase flags - 12` = memory `flags`, address -12).  Write it in parentheses."""
@@ -544,7 +580,7 @@ def stmt_text(s, et):
     k = s["kind"]
     if k == "load":
         dt = data_text(s["data"], et)
-        return "load %s%s > %s;" % (mem_opt_text(s["opt"], et), guard(dt, s["opt"]) if s["data"][0] == "pattern" else dt, target_text(s["target"], et))
+        return "load %s%s > %s;" % (mem_opt_text(s["opt"], et), guard2(dt, s["opt"]) if s["data"][0] == "pattern" else dt, target_text(s["target"], et))
     if k == "erase":
         return "erase %s%s;" % (mem_opt_text(s["opt"], et), target_text(s["target"], et, s["opt"]))
     if k == "eraseall":
@@ -567,7 +603,7 @@ def stmt_text(s, et):
         return "keywrap (%s) { load {{%s}} > %s; }" % (et(s["id"]), s["blobtext"], et(s["addr"]))
     if k == "encrypt":
         dt = data_text(s["data"], et)
-        return "encrypt (%s) { load %s%s > %s; }" % (et(s["id"]), mem_opt_text(s["opt"], et), guard(dt, s["opt"]) if s["data"][0] == "pattern" else dt, target_text(s["target"], et))
+        return "encrypt (%s) { load %s%s > %s; }" % (et(s["id"]), mem_opt_text(s["opt"], et), guard2(dt, s["opt"]) if s["data"][0] == "pattern" else dt, target_text(s["target"], et))
     if k == "unsup":
         return s["text"]
     raise ValueError(k)
@@ -778,13 +814,14 @@ def run(ck):
               "shift counts beyond 2^18 are not evaluated (MemoryError territory)",
               "load_binary / MemId.get_legacy_str / ExtMemId tags / KeyBlob are interfaces: their results are inputs of the model",
               "operations on a str operand (undefined identifier or string option inside an expression) are outside the model",
-              "negative program-fuse patterns are not generated (get_bytes_cnt_of_int never returns on them)")
+              "every call into the implementation runs under a 30 s alarm: a hang is reported as a failure")
     rng = ck.rng
     if drv is None:
         run_oracle_only(ck, real)
         return
     expr_streams(ck, real, drv, rng)
     lexer_stream(ck, real, drv, rng)
+    duplicate_stream(ck, real, drv, rng)
     program_streams(ck, real, drv, rng)
 
 
@@ -1025,6 +1062,36 @@ def lexer_stream(ck, real, drv, rng):
         s.compare({"text": text}, got, ans.split(" # ")[0])
 
 
+def duplicate_stream(ck, real, drv, rng):
+    """which of several definitions of one name is used is not specified: correspondence only (no oracle)"""
+    s = ck.stream("duplicate_defs", "constants / options defined more than once and then used: implementation vs model only "
+                  "(the documents do not say which definition counts); non-trivial = distinct text")
+    for _ in range(ck.budget(60, 1000)):
+        names = ["a", "b1", "c0de"]
+        defs, wirereq, n = [], [], 0
+        lines = []
+        for blk in range(rng.randint(1, 3)):
+            kind = rng.choice(["constants", "options"])
+            body, w = [], []
+            for _ in range(rng.randint(1, 4)):
+                nm = rng.choice(names)
+                val = rng.choice([str(rng.randrange(100)), rng.choice(names) + " + 1", rng.choice(names)])
+                body.append("%s = %s;" % (nm, val))
+                w.append((nm, val))
+            lines.append("%s { %s }" % (kind, " ".join(body)))
+            if kind == "constants":
+                wirereq += ["CONSTS", str(len(w))] + [x for nm, val in w for x in (nm, hx(val))]
+            else:
+                wirereq += ["OPTS", str(len(w))] + [x for nm, val in w for x in (nm, "E", hx(val))]
+        lines.append("options { r1 = a; r2 = b1; r3 = c0de; }")
+        wirereq += ["OPTS", "3", "r1", "E", hx("a"), "r2", "E", hx("b1"), "r3", "E", hx("c0de")]
+        text = "\n".join(lines)
+        got, _raw = real.parse(text)
+        ans = drv.ask(" ".join(["P", "PROG"] + wirereq))
+        s.note(text)
+        s.compare({"text": text}, got, ans.split(" # ")[0])
+
+
 def program_streams(ck, real, drv, rng):
     for nm, data in (("f16.bin", bytes(range(16))), ("f5.bin", b"\x01\x02\x03\x04\x05"), ("f600.bin", bytes((i * 7) & 0xFF for i in range(600))),
                      ("empty.bin", b"")):
@@ -1073,6 +1140,8 @@ def program_streams(ck, real, drv, rng):
             st.expect(gotcfg == ref["config"], inp, "the configuration is not what the definitions say (options, constants, sources, "
                       "key blobs resolve to their definitions; one command dictionary per statement)", gotcfg, ref["config"])
         gotc, hdr = real.load(text, extern)
+        st.expect(gotc != "HANG", inp, "load_from_config does not terminate on this program (an unsupported operand must be refused with an error)",
+                  gotc, "a result or an error")
         # model commands: crypto operands -> bytes via SPSDK's KeyBlob
         mc = crypto_expand(real, mcmds)
         gotc_m = mask_keywrap(gotc, mc)
@@ -1403,8 +1472,8 @@ def gen_program(rng, real, drv, unsup):
                     hexs = "00000000" + hexs[8:]
                 d = ("blob", hexs, " ".join(hexs[i:i + 2] for i in range(0, len(hexs), 2)))
             else:
-                v = rng.choice([1, 0xaabb, 0xffffffff, rng.getrandbits(32) | 1] + ([0, 0x100000000] if risky else []))
-                pa = mk_int(v, names_int)
+                v = rng.choice([1, 0xaabb, 0xffffffff, rng.getrandbits(32) | 1] + ([0, 0x100000000, -1, -0x100] if risky else []))
+                pa = mk_int(v, names_int) if v >= 0 else ("N", ("L", -v))
                 if pa[0] == "V":
                     pa = ("L", v)
                 d = ("pattern", E(pa))
